@@ -19,6 +19,10 @@ def run(ctx):
               label="negative self-test: choosing the step by the arithmetic mean breaks the count bound")
     recs = tc.gather(ctx, "ticks")
     tc.check(ctx, "ticks", recs, "C16_")
+    # the process's local zone is no input of the property: a slice of the same records is taken in a zone with DST
+    zrecs = tc.gather(ctx, "ticks", tz="EST5EDT,M3.2.0,M11.1.0", scale=0.2)
+    tc.check(ctx, "ticks", zrecs, "C16_", zone="US-Eastern-DST")
+    ctx.evaluations += len(zrecs)
     # conformance of the operational model with the observed tick lists: drift is reported, never a verdict
     sub = [r for r in recs if not r["err"]][::(3 if quick else 1)]
     drift, st = core.validate_records("TimeDrift", "TimeDrift.cfg", sub, per_shard=800, heap="3g")
